@@ -224,10 +224,17 @@ def _combine_case(draw, tier):
     names = draw(st.permutations(_PNAMES))[:nun + 1]
     unpacked = []
     for nm in names[:nun]:
-        kind = draw(st.sampled_from(["int", "float"]))
+        kind = draw(st.sampled_from(["int", "float", "float", "close"]))
         if kind == "int":
             pool = draw(st.lists(st.integers(-5, 20), min_size=1, max_size=5,
                                  unique=True))
+        elif kind == "close":
+            # distinct floats that are tiny or nearly equal (noise powers in
+            # Watts, ppm steps): equal only under a tolerance, not exactly
+            pool = draw(st.lists(st.sampled_from(
+                [1e-9, 1e-10, 1e-11, 1e-12, 3e-12, 1.0, 1.0000025, 1.000005,
+                 2.5, 2.5000000000000004]), min_size=2, max_size=5,
+                unique=True))
         else:
             pool = draw(st.lists(st.integers(-20, 80).map(lambda k: k / 4.0),
                                  min_size=1, max_size=5, unique=True))
